@@ -111,7 +111,12 @@ REG.contract(L + "c03.merge_step", params={"long": "formulae.contrasts.Subterm",
                       "short.efactors <= result",
                       "long.efactors == old(long.efactors)", "short.efactors == old(short.efactors)"])
 
-FUNCTIONS = [L + "c03.merge_step", L + "c06.center_rows", L + "c06.scale_rows", L + "c06.categoric_rows", L + "c06.bspline_rows", L + "c01.scan_then_parse",
+# ---- C16 -------------------------------------------------------------------------------------------------------------
+from . import offset_c                                                                        # noqa: E402,F401
+REG.contract(L + "c16.constant_offset", params={"x": "real", "size": "int"}, returns="arr2", tags=["C16"], requires=["size >= 0"],
+             ensures=["result.shape[0] == size", "result.shape[1] == 1", "forall(0, size, lambda r: result[r, 0] == x)"])
+
+FUNCTIONS = [L + "c16.constant_offset", L + "c03.merge_step", L + "c06.center_rows", L + "c06.scale_rows", L + "c06.categoric_rows", L + "c06.bspline_rows", L + "c01.scan_then_parse",
              L + "c04.main_effect", L + "c04.main_effect#call", L + "c04.pair_interaction", L + "c17.block_view", L + "c17.block_view#group"]
 ASSUMPTIONS = ["property lemmas are verified on harness functions under /verif/vf/proplemmas that only call the real functions; each "
                "callee is represented by its contract (proved separately on the real source)",
